@@ -259,7 +259,16 @@ func opCompile(j Job) (out Res) {
 			params = append(params, map[string]interface{}{"number": p.Number, "column": dumpColumn(p.Column)})
 		}
 		comments := append([]string{}, q.Comments...)
-		qs = append(qs, map[string]interface{}{"name": q.Name, "cmd": q.Cmd, "sql": q.SQL, "comments": comments, "columns": cols, "params": params})
+		qm := map[string]interface{}{"name": q.Name, "cmd": q.Cmd, "sql": q.SQL, "comments": comments, "columns": cols, "params": params}
+		if w, _ := j["want_sql_ast"].(bool); w {
+			// the embedded SQL as a database would see it
+			if st, perr := parserFor(str(j, "engine")).Parse(strings.NewReader(q.SQL)); perr == nil && len(st) == 1 {
+				qm["sql_ast"] = dumpNode(st[0].Raw)
+			} else if perr != nil {
+				qm["sql_ast_err"] = perr.Error()
+			}
+		}
+		qs = append(qs, qm)
 	}
 	res["ok"] = true
 	res["queries"] = qs
